@@ -19,6 +19,7 @@ func init() {
 			"R19.3 the request-time failure sites for a missing registration are exactly the tabled ones (consumer miss x2 -> 500, producer miss x3 and produce error x2 -> panic in Respond), so a new one is reported. " +
 			"R19.2 also: the per-route consumer/producer tables are built from the route's own consumes/produces lists, and WithoutJSONDefaults undoes exactly what WithJSONDefaults installs. " +
 			"R19.2 also: the per-method handler table is keyed by the verbatim path the registry enumerates. " +
+			"R19.2 also: the routable API's DefaultConsumes/DefaultProduces/ConsumersFor/ProducersFor answer from the registered API, each from its own field. " +
 			"NOT decided: set arithmetic on concrete inputs; the analyzer's requirement lists (go-openapi/analysis).",
 		Run: runC19,
 	})
